@@ -208,7 +208,7 @@ func instrumentPkg(repo, rel, pkgName, out string, replace map[string]string, fu
 					add(off(im.Path.Pos()), len(im.Path.Value), `"`+rtPath+`/fakejs"`, false)
 				}
 			}
-			if path == "sync" && full {
+			if path == "sync" && (full || pkgName == "api") {
 				if im.Name == nil {
 					add(off(im.Path.Pos()), len(im.Path.Value), `sync "`+rtPath+`/vsync"`, false)
 				} else {
@@ -277,6 +277,10 @@ func instrumentPkg(repo, rel, pkgName, out string, replace map[string]string, fu
 					instrList(x.Body)
 				case *ast.CommClause:
 					instrList(x.Body)
+				case *ast.SwitchStmt:
+					if rewriteSwitch(x, info, fset, relName, sf.src, base, add) {
+						used = true
+					}
 				case *ast.BinaryExpr:
 					if rewriteCompare(x, info, fset, relName, off, add) {
 						used = true
@@ -399,10 +403,63 @@ func rewriteCompare(x *ast.BinaryExpr, info *types.Info, fset *token.FileSet, fi
 	return false
 }
 
+// rewriteSwitch makes the comparisons of a string switch with non-constant cases visible:
+// `verifrt.SwitchS(site, tag, cases...)` is spliced in front of the statement.  Only tags and
+// cases without calls are handled (they are evaluated a second time).
+func rewriteSwitch(x *ast.SwitchStmt, info *types.Info, fset *token.FileSet, file string, src []byte, base int, add func(int, int, string, bool)) bool {
+	if x.Tag == nil || x.Init != nil || info == nil || !isStringType(info.TypeOf(x.Tag)) {
+		return false
+	}
+	pure := func(e ast.Expr) bool {
+		ok := true
+		ast.Inspect(e, func(n ast.Node) bool {
+			if _, isCall := n.(*ast.CallExpr); isCall {
+				if tv, has := info.Types[n.(*ast.CallExpr).Fun]; !has || !tv.IsType() {
+					ok = false
+				}
+			}
+			return ok
+		})
+		return ok
+	}
+	if !pure(x.Tag) {
+		return false
+	}
+	text := func(e ast.Expr) string { return string(src[int(e.Pos())-base : int(e.End())-base]) }
+	var cases []string
+	nonConst := false
+	for _, cl := range x.Body.List {
+		for _, e := range cl.(*ast.CaseClause).List {
+			if !pure(e) {
+				return false
+			}
+			if tv, ok := info.Types[e]; !ok || tv.Value == nil {
+				nonConst = true
+			}
+			cases = append(cases, "string("+text(e)+")")
+		}
+	}
+	if !nonConst || len(cases) == 0 {
+		return false
+	}
+	for k := int(x.Pos()) - base - 1; k >= 0; k-- { // a labelled switch keeps its label: leave it alone
+		if c := src[k]; c == ' ' || c == '\t' || c == '\n' {
+			continue
+		} else if c == ':' {
+			return false
+		}
+		break
+	}
+	id := newSite(fset, file, x.Pos(), "switch-string")
+	add(int(x.Pos())-base, 0, fmt.Sprintf("verifrt.SwitchS(%d, string(%s), %s);", id, text(x.Tag), strings.Join(cases, ", ")), false)
+	return true
+}
+
 var cmpFuncs = map[string]string{ // pkgpath.Func -> wrapper kind
 	"bytes.Equal": "BB", "bytes.Compare": "BB", "bytes.HasPrefix": "BB", "bytes.HasSuffix": "BB", "bytes.Contains": "BB", "bytes.Index": "BB", "bytes.EqualFold": "BB",
 	"strings.Compare": "SS", "strings.EqualFold": "SS", "strings.HasPrefix": "SS", "strings.HasSuffix": "SS", "strings.Contains": "SS", "strings.Index": "SS",
 	"reflect.DeepEqual":             "AA",
+	"slices.Contains": "W2", "slices.Index": "W2", "slices.Equal": "W2", "slices.Compare": "W2", "sort.SearchStrings": "W2", "slices.BinarySearch": "W2R2",
 	"crypto/subtle.ConstantTimeCompare": "CT", "crypto/hmac.Equal": "CT",
 }
 
@@ -442,6 +499,10 @@ func rewriteCall(c *ast.CallExpr, info *types.Info, alias map[string]string, fse
 		add(off(c.Fun.Pos()), 0, fmt.Sprintf("verifrt.WSS(%d, %q, ", site, name), false)
 	case "AA":
 		add(off(c.Fun.Pos()), 0, fmt.Sprintf("verifrt.WAA(%d, %q, ", site, name), false)
+	case "W2":
+		add(off(c.Fun.Pos()), 0, fmt.Sprintf("verifrt.W2(%d, %q, ", site, name), false)
+	case "W2R2":
+		add(off(c.Fun.Pos()), 0, fmt.Sprintf("verifrt.W2R2(%d, %q, ", site, name), false)
 	}
 	_ = fn
 	add(off(c.Lparen), 1, ", ", false)
